@@ -572,7 +572,17 @@ class Run:
         if "stable" in self.oracles:
             self.check_stable(ts, oi)
         for h in self.hooks:
-            h.after_op(self, ts, oi, op, rec)
+            try:
+                h.after_op(self, ts, oi, op, rec)
+            except (SimCancelled, SimKilled, HarnessError):
+                raise
+            except Exception as e:  # noqa: BLE001
+                # an oracle that cannot even walk the output: the output does not have the shape every run on the
+                # unchanged tree has (millions of runs never get here) - reported as a violation, not as a harness error
+                import traceback
+                where = traceback.extract_tb(e.__traceback__)[-1]
+                self.violation(self.spec.get("prop", "C15") + "-malformed", ts.ti, oi, "$oracle", "output an oracle can walk",
+                               "%s: %s at %s:%d" % (type(e).__name__, e, where.filename.rsplit("/", 1)[-1], where.lineno))
 
     def gen_identity(self, ts, oi, op):
         """Which generator the operation's instance was GIVEN (by the run specification)."""
@@ -679,7 +689,12 @@ class Run:
                 for ts in states:
                     self.check_stable(ts, len(ts.records) - 1)
             for h in self.hooks:
-                h.at_end(self)
+                try:
+                    h.at_end(self)
+                except (SimCancelled, SimKilled, HarnessError):
+                    raise
+                except Exception as e:  # noqa: BLE001
+                    self.violation(self.spec.get("prop", "C15") + "-malformed", -1, -1, "$oracle.at_end", "output an oracle can walk", "%s: %s" % (type(e).__name__, e))
         return self.outcome(env, states)
 
     def outcome(self, env, states):
